@@ -48,3 +48,91 @@ def monitor(case, r):
 
 def nontrivial(case, r):
     return r is not None and (r.count(" ") >= 2 or r.startswith("err"))
+
+
+# ---------------------------------------------------------------------------------------------
+# session level: protocol-respecting call sequences (enter / execute / interrupt / snapshots / loads)
+# ---------------------------------------------------------------------------------------------
+import gen_prog  # noqa: E402
+import sess  # noqa: E402
+
+REPLIES = ["", "1", "abc", "\"", "\"\"", "1,2", ",", "\"a,b\",7", " 5 ", "1E400", "&HFFFF", "x" * 1025, "é" * 600, "\t", "1,2,3,4,5,6,7,8,9",
+           "-", "1e", "\"unterminated", "a\"b", "NEW", "RUN", "10 PRINT 1"]
+DIRECT = ["RUN", "RUN 20", "LIST", "LIST 10-20", "CONT", "NEW", "RENUM", "RENUM 5,0,0", "RENUM 65529", "DELETE 10", "DELETE 10-", "DELETE",
+          "SAVE \"f\"", "LOAD \"f\"", "RUN \"f\"", "CLEAR", "PRINT 1/0", "PRINT -(-32767-1)", "PRINT ABS(-32767-1)", "A$=INKEY$", "INPUT Q", "INPUT Q$,R$",
+          "GOTO 10", "GOSUB 10", "RETURN", "NEXT", "WEND", "FOR I=1 TO 1E30", "DIM Z(32767)", "DIM Z(10,10,10,10)", "PRINT STRING$(255,\"x\")+STRING$(255,\"y\")",
+          "X$=STRING$(255,\"é\"):PRINT LEN(X$+X$+X$)", "PRINT CHR$(-1)", "PRINT MID$(\"abc\",0)", "PRINT LEFT$(\"é日\",1)", "PRINT VAL(\"1E400\")", "TRON", "TROFF",
+          "DEF FNA(X)=X", "PRINT FNA(1)", "ERASE Q", "ON 0 GOTO 10", "ON 70000 GOTO 10", "PRINT 1E38*10", "PRINT 2^15", "PRINT 2^1000", "?\"é\"+1",
+          "10", "20", "65530 PRINT", "  ", "'", "REM", ":", "::::", "IF 1 THEN", "IF 1 THEN ELSE", "PRINT \"" + "x" * 300 + "\"", "A=" + "(" * 300,
+          "A=" + "(" * 200 + "1" + ")" * 200, "PRINT " + "-" * 500 + "1", "PRINT " + "NOT " * 200 + "1", "PRINT 1" + "+1" * 400, "LIST 65529-", "LIST -0"]
+
+
+def session_cases(tier, rng):
+    out = []
+    n = 700 if tier == "quick" else 30000
+    for si in range(n):
+        calls = ["R5000"]
+        held = 0
+        prog, inputs = gen_prog.generate(rng, size=rng.randint(1, 4))
+        steps = rng.randint(4, 22)
+        for _ in range(steps):
+            r = rng.random()
+            if r < 0.3:
+                l = rng.choice(prog)
+                if rng.random() < 0.2:
+                    k = rng.randrange(len(l))
+                    l = l[:k] + rng.choice("\"'&.EeD%$!#(),:;=<>") + l[k + 1:]
+                calls.append(sess.E(l))
+            elif r < 0.36:
+                calls.append(sess.E(gen_lines.numbered(rng, gen_lines.soup(rng, rng.randint(1, 8)))))
+            elif r < 0.6:
+                calls += [sess.E(rng.choice(DIRECT)), "R%d" % rng.choice([1, 7, 5000, 5000])]
+            elif r < 0.72:
+                calls.append("A%d:%s" % (rng.choice([1, 5000]), sess.hx(rng.choice(REPLIES + inputs))))
+            elif r < 0.8:
+                calls += ["X%d" % rng.choice([1, 2, 3, 50])] * rng.randint(1, 5) + ["I", "R5000"]
+            elif r < 0.84:
+                calls.append("I")
+            elif r < 0.88 and rng.random() < 0.5:
+                calls.append("g")
+            elif r < 0.9:
+                calls.append("G")
+                held += 1
+            elif r < 0.92 and held:
+                calls.append("D")
+                held -= 1
+            elif r < 0.96:
+                text = "\n".join(rng.sample(prog, min(len(prog), 3))) + rng.choice(["", "\n", "\nPRINT 1\n", "\n" + "x" * 1030 + "\n"])
+                calls.append("L:%s:%d" % (sess.hx(text), rng.choice([0, 1])))
+                calls.append("R5000")
+            else:
+                calls.append(sess.E("x" * rng.choice([1023, 1024, 1025, 3000])))
+                calls.append("R5000")
+        # back to the prompt after at most one interrupt, then the next line must be accepted
+        calls += ["I", "R5000", "A5000:" + sess.hx("0"), sess.E("PRINT 7"), "R5000"]
+        out.append(Case(sess.session(calls), sig="session %d: %d calls, %d snapshots held" % (si, len(calls), held), tag="session",
+                        meta=("session", held)))
+    return out
+
+
+_gen_lines_only = gen
+
+
+def gen(tier, rng):  # noqa: F811
+    return _gen_lines_only(tier, rng) + session_cases(tier, rng)
+
+
+_monitor_lines = monitor
+
+
+def monitor(case, r):  # noqa: F811
+    v = _monitor_lines(case, r)
+    if v or r is None:
+        return v
+    if "PANIC" in r.split("|") or "HANG" in r.split("|"):
+        return "crash: %s answers ...%s" % (case.sig, sess.decode_events(r)[-200:])
+    if case.meta and case.meta[0] == "session":
+        tail = r.split("|")[-5:]
+        if tail[-1] != "S" or ("P:" + sess.hx(" 7 ")) not in tail:
+            return "not ready: after an interrupt the next line was not executed: %s ... %s" % (case.sig, sess.decode_events("|".join(tail)))
+    return None
